@@ -87,3 +87,14 @@ Theorem layout_independent_matches_partial : forall sn1 sn2 musts shoulds nots m
     answer sn2 copts_plain (flatq musts shoulds nots ms) = Ok ids2 /\ Permutation ids1 ids2.
 Proof. exact layout_independent_matches_flat. Qed.
 Print Assumptions layout_independent_matches_partial.
+
+(* optimisations_same_set (full statement: every optimisation switch of index.Config leaves
+   every answer unchanged); proved for the conjunction push-down on the fragment of C07's
+   search_exact_partial.  The unadorned rewrites only act under scoring "none", where the set is
+   NOT preserved in general (score_mode_none_same_set_refuted). *)
+Theorem optimisations_same_set_partial : forall sn musts shoulds nots ms,
+  wf_sn sn -> 0 <= ms -> (musts <> [] \/ shoulds <> []) ->
+  (length shoulds <= 10)%nat -> (length nots <= 10)%nat ->
+  answer sn copts_default (flatq musts shoulds nots ms) = answer sn copts_plain (flatq musts shoulds nots ms).
+Proof. exact optimisation_same_answer_flat. Qed.
+Print Assumptions optimisations_same_set_partial.
